@@ -1,7 +1,9 @@
 mod common;
+mod http_sys;
 mod props;
 mod seqmc;
 mod udp_sys;
+mod ws_sys;
 
 fn main() {
     let args = common::parse_args();
@@ -15,6 +17,10 @@ fn main() {
 fn dispatch(args: &common::Args) {
     match args.id.as_str() {
         "C01" => props::c01::main(args),
+        "C07" => props::c07::main(args),
+        "C08" => props::c08::main(args),
+        "C09" => props::c09::main(args),
+        "C10" => props::c10::main(args),
         "C20" => props::c20::main(args),
         other => common::machinery_failure(&format!("unknown property id {}", other)),
     }
